@@ -6,6 +6,39 @@ NOTES = ('Contract-based deductive verification only (CBMC code contracts on fun
          'extraction break, vacuity guard) and is never reported as a violation. See DESIGN.md.')
 _PENDING = 'units for this property are not built yet (see DESIGN.md section 7); not claimed until they exist and pass'
 CLAIMED = {
+ 'C03': ('proof',
+         'Component-level proof: the normalisation mechanisms (end-of-line handling and line/column tracking of XMLReader, '
+         'attribute-value normalisation of the IG/SG scanners, character references, comments, PIs, CDATA sections and character '
+         'data of the scanners over a reader abstraction) deliver exactly what XML 1.0/1.1 prescribes for every input in the stated '
+         'domain; not a claim about the API adapters or about whole documents.',
+         'DESIGN.md 3-C03',
+         'Reader abstraction, emitError/handler sinks and XMLBuffer models are trusted stubs; scanner-level units are complete only '
+         'up to the stated input length; SAX/DOM adapters, entity expansion and DTD defaulting are not covered.',
+         'CBMC code contracts + complete unwinding over bounded symbolic inputs on extracted real bodies'),
+ 'C04': ('proof',
+         'Component-level proof of refill transparency: refreshRawBuffer / xcodeMoreChars / refreshCharBuffer preserve every unread '
+         'byte and character in order for every stream read size and refill position (ghost-index contracts), every reader look-ahead '
+         'operation is proved against a postcondition over the logical unread sequence with the refill replaced by that contract, and '
+         'the intrinsic transcoders consume whole characters only.',
+         'DESIGN.md 3-C04',
+         'Buffer constants rebound to small values (code assumed parametric in them); ICU transcoders and non-memory streams assumed to '
+         'satisfy the interface contracts; scanner-level look-ahead spanning several reader calls is not covered.',
+         'CBMC function and loop contracts (modular: callers checked against callee contracts) on extracted real bodies'),
+ 'C12': ('proof',
+         'Component-level proof for the XMLFormatter kernels (escape sets for all 2^16 characters x modes x XML versions, character '
+         'references, the formatBuf / handleUnEscapedChars / specialFormat loops incl. termination, MemBuf/LocalFile targets); '
+         'DOMLSSerializer itself (DOM traversal, namespace fix-up) is not covered.',
+         'DESIGN.md 3-C12',
+         'Transcoder and target are interface contracts; DOM serializer and re-parse equality not covered.',
+         'CBMC function and loop contracts + complete domain enumeration on extracted real bodies'),
+ 'C16': ('proof',
+         'Component-level proof for the XSerializeEngine primitives only: every operator<< / operator>> pair, raw byte blocks, '
+         'fillBuffer/flushBuffer keep store and load cursors symmetric and in bounds; the ~60 class-level serialize() methods are '
+         'not covered (a dropped field there is invisible to this check).',
+         'DESIGN.md 3-C16',
+         'Streams are ghost-tape stubs; raw block unit is a bounded stand-in (reported separately); class serialize() methods, '
+         'XTemplateSerializer and object pools not covered.',
+         'CBMC code contracts (loop-free full-domain harnesses) on extracted real bodies'),
  'C05': ('proof',
          'Component-level proof: the intrinsic transcoders and the encoding probe satisfy specifications written from '
          'the Unicode Standard / XML Appendix F for every input in the stated domain; not a whole-document claim.',
@@ -15,8 +48,8 @@ CLAIMED = {
          'CBMC code contracts + complete unwinding over the full byte-sequence domain on extracted real bodies'),
 }
 NOT_APPLICABLE = {
- 'C01': _PENDING, 'C02': _PENDING, 'C03': _PENDING, 'C04': _PENDING, 'C06': _PENDING, 'C09': _PENDING,
- 'C11': _PENDING, 'C12': _PENDING, 'C16': _PENDING,
+ 'C01': _PENDING, 'C02': _PENDING, 'C06': _PENDING, 'C09': _PENDING,
+ 'C11': _PENDING, 
  'C07': 'DTD validity is decided by buildDFA/DTDValidator/DTDScanner: recursive C++ object graphs with virtual dispatch and templates; no contract within reach of the C extraction states "the DFA accepts the content model language".',
  'C08': 'Schema structure validation (TraverseSchema/SchemaValidator/ComplexTypeInfo): same reason as C07, larger.',
  'C10': 'Identity constraints: ValueStore/XPathMatcher object graphs driven by the scanner event stream; value equality through virtual DatatypeValidator::compare.',
